@@ -64,7 +64,7 @@ func zzDrawInner() zzInnerResp {
 	b.explicit = verifrt.Bool("explicit")
 	b.status = 200
 	if b.explicit {
-		b.status = []int{200, 204, 304, 404}[verifrt.Choose("status", 4)]
+		b.status = []int{200, 204, 304, 404, 206}[verifrt.Choose("status", 5)]
 	}
 	n := verifrt.IntRange("chunks", 0, 2)
 	for i := 0; i < n; i++ {
@@ -135,7 +135,7 @@ func VerifH18Transparent() {
 	} else if minLen == 2 {
 		cfg.ResponseFilters = append(cfg.ResponseFilters, LengthFilter(3))
 	}
-	accept := []string{"", "gzip", "zstd", "gzip, zstd", "identity"}[verifrt.Choose("accept", 5)]
+	accept := []string{"", "gzip", "zstd", "gzip, zstd", "identity", "identity;q=1, *;q=0", "gzip;q=0, identity"}[verifrt.Choose("accept", 7)]
 	path := []string{"/a.txt", "/a.png", "/"}[verifrt.Choose("path", 3)]
 	g := Gzip{Next: zzInner{&b}, Configs: []Config{cfg}}
 	r := &http.Request{Method: "GET", URL: &url.URL{Path: path}, Header: http.Header{}}
@@ -151,7 +151,7 @@ func VerifH18Transparent() {
 
 	verifrt.Assert(w.status == ref.status, "status-unchanged")
 	enc := w.Header().Get("Content-Encoding")
-	offered := strings.Contains(accept, "gzip")
+	offered := strings.Contains(accept, "gzip") && !strings.Contains(accept, "gzip;q=0")
 	applied := false
 	body := w.body
 	if enc == "gzip" && b.cenc != "gzip" {
